@@ -231,6 +231,8 @@ class NoneWalker(BasicWalker[None]):
     def visit_LocalAssign(self, node: LocalAssign) -> None:
         for var in node.variable_names:
             self.visit(var.name)
+            if var.attribute:
+                self.visit(var.attribute)
         if node.expressions:
             for expr in node.expressions:
                 self.visit(expr)
